@@ -472,6 +472,13 @@ class _Run:
             return "special"
         R = t.readings(st, cs)
         D = t.decompositions(st, cs)
+        if not cs:
+            # case-insensitive lookup *additionally* accepts spellings in another case: a string that has a
+            # reading in the case as given keeps it
+            R = t.readings(st, True) or R
+            D_cs = t.decompositions(st, True)
+        else:
+            D_cs = D
 
         def bad(why, **more):
             raise Violation("C08.model", s["id"], dict({"string": st, "via": via, "case_sensitive": cs, "why": why,
